@@ -652,6 +652,19 @@ def check_measurements(ctx, top):
     shape.match(ctx, "R13.15", TK + ".to_tk:discard-bits:width", nb.value if nb else None, "box.dom.count(bit)", NL, mod=TK, node=nb or loop, sig="discard-bits-width")
 
 
+def check_classical_gate_types(ctx):
+    """R13.15: the classical gates to_tk composes into the post-processing are given their numbers of bits as ints: each is turned into that many bit wires, domain and codomain each on its own"""
+    m = ctx.model
+    G = "discopy.quantum.gates"
+    fn = m.func(G + ".ClassicalGate.__init__")
+    ctx.analysed(G + ".ClassicalGate.__init__")
+    a = [x.arg for x in fn.args.args]
+    ctx.need(len(a) >= 4, "ClassicalGate.__init__ takes fewer than (name, dom, cod, ...)")
+    ups = [s for s in fn.body if isinstance(s, ast.If) and "isinstance" in ast.unparse(s.test) and "int" in ast.unparse(s.test)]
+    shape.match_stmts(ctx, "R13.15", G + ".ClassicalGate.__init__:wires", ups, ["if isinstance(dom, int):\n    dom = bit ** dom", "if isinstance(cod, int):\n    cod = bit ** cod"], {a[2]: "dom", a[3]: "cod"}, mod=G, node=fn,
+                      sig="classical-wires", exact=True, required="an int stands for that many bits, for the domain and for the codomain separately")
+
+
 def check_counts_pipeline(ctx):
     """R13.14: what tk.Circuit.get_counts does to the raw counts of the backend: options read under their own names, frequencies, the recorded post-selection, the recorded scalar"""
     m = ctx.model
@@ -672,6 +685,13 @@ def check_counts_pipeline(ctx):
     bad = {k: defaults.get(k) for k, v in want.items() if defaults.get(k) != v}
     ctx.ob("R13.14", q + ":defaults", not bad, found=bad or want, required="by default counts are normalised, post-selected and scaled, and no measurement is added", mod=TK, node=fn, sig="option-defaults")
     blocks = {ast.unparse(s.test): s for s in fn.body if isinstance(s, ast.If)}
+    self_, others_ = fn.args.args[0].arg, fn.args.vararg.arg if fn.args.vararg else "others"
+    NB = {self_: "self", others_: "others"}
+    for opt, stmt in (("measure_all", "for circuit in (self,) + others:\n    circuit.measure_all()"), ("compilation is not None", "for circuit in (self,) + others:\n    compilation.apply(circuit)")):
+        b = blocks.get(opt)
+        ctx.ob("R13.14", "%s:step[%s]" % (q, opt.split()[0]), b is not None, found=sorted(blocks), required="the step is taken exactly when its option asks for it (`if %s:`)" % opt, mod=TK, node=fn, sig="step-guard:" + opt.split()[0])
+        if b is not None:
+            shape.match_stmts(ctx, "R13.14", "%s:step[%s]:body" % (q, opt.split()[0]), b.body, [stmt], NB, mod=TK, node=b, sig="step-body:" + opt.split()[0], exact=True)
     nb = blocks.get("normalize")
     ctx.need(nb is not None and blocks.get("post_select") is not None and blocks.get("scale") is not None, "get_counts: the normalize / post_select / scale steps are not guarded by their options")
     shape.match_stmts(ctx, "R13.14", q + ":normalize", nb.body, ["counts = list(map(probs_from_counts, counts))"], mod=TK, node=nb, sig="normalize", exact=True, required="frequencies instead of numbers of shots, for every circuit")
@@ -714,6 +734,7 @@ def check(ctx):
     top = m.func(TK + ".to_tk")
     ctx.rule("R13.15", "measurements: the j-th wire of the box goes from qubits[qubit_offset + j] into its own bit (Measure(qubit, bit)); effects post-select that bit on their j-th digit; discarded bits are the all-ones effect")
     check_measurements(ctx, top)
+    check_classical_gate_types(ctx)
     ctx.rule("R13.13", "swaps in to_tk: two qubit (bit) wires exchange their registers through a temporary unit; with a classical post-processing the swap is applied to its outputs at the wire position")
     check_swap_handler(ctx, top)
     fn = m.func(TK + ".from_tk")
